@@ -21,7 +21,8 @@ DIM_FUNCS = ["Rosenbrock", "Ackley", "Sphere", "Schwefel", "ModifiedEasom", "Equ
 FIXED_FUNCS = ["SixHump", "Schubert", "Booth", "GramacyLee"]
 ROBUST_FUNCS = ["Synthetic1D", "Synthetic2D", "Synthetic5D", "Synthetic10D"]
 LEVELS = {1: 41, 2: 21, 3: 9, 4: 5, 5: 5, 6: 3, 7: 3, 8: 3, 10: 3}
-HIGH_DIMS = tuple(d for d in range(9, 101) if d != 10)   # only the documented optimum, its neighbourhood, the two corners and the centre
+BIG_DIMS = (127, 128, 129, 255, 256, 257, 513, 1000)
+HIGH_DIMS = tuple(d for d in range(9, 101) if d != 10) + BIG_DIMS   # only the documented optimum, its neighbourhood, the two corners and the centre
 TOL = 1e-3
 
 _cache = {}
@@ -174,7 +175,9 @@ def optimum_points(p):
         return pts
     co = [float(c) for c in co]
     pts.append((tuple(co), True))
-    for i, par in enumerate(p.parameters):
+    axes_idx = range(len(co)) if len(co) <= 100 else sorted(set([0, 1, len(co) // 2, len(co) - 2, len(co) - 1, 31, 32, 63, 64, 127, 128, 255, 256]) & set(range(len(co))))
+    for i in axes_idx:                 # beyond 100 dimensions: the axes at the ends, the middle and around powers of two
+        par = p.parameters[i]
         lb, ub = par['bounds']
         for h in (1e-3, 1e-2):
             for sgn in (1, -1):
@@ -259,7 +262,9 @@ def run(tier, seed):
         for dim in (5, 6, 7, 8):
             shards.append((name, dim, None))
         for dim in HIGH_DIMS:
-            if tier == "thorough" or dim <= 32 or dim % 2 == 0 or dim in (57, 59, 63, 65, 81, 99):
+            if name == "Perm" and dim > 100:
+                continue        # the coefficients (j+1)**i alone exceed the float range: the function value is not representable
+            if tier == "thorough" or dim <= 32 or dim % 2 == 0 or dim in (57, 59, 63, 65, 81, 99) or dim in BIG_DIMS:
                 shards.append((name, dim, None))
         for dim in (1, 2, 3, 4, 10):
             if dim == 10:
